@@ -31,7 +31,7 @@ func c07Buffer(maxBuffer, queueCap int) *ArrowBuffer {
 func VerifC07NoWAL() {
 	zz.ClockFixed(1700000000000000000)
 	maxBuf := zz.ParamInt("max_buffer", 2)
-	queueCap := 1
+	queueCap := zz.ParamInt("queue_cap", 1)
 	b := c07Buffer(maxBuf, queueCap)
 	if zz.Bool("queue_already_full") {
 		b.flushQueue <- flushTask{bufferKey: "other"}
